@@ -105,7 +105,7 @@ def parseOp (toks : List String) : POp :=
     | some a => .op (.announce a [])
     | none => .bad "r=bad"
   | ["withdraw", a] => match nat? a with
-    | some a => .op (.withdraw a)
+    | some a => .op (.withdraw a [])
     | none => .bad "r=bad"
   | ["deliver", a, b, i] => match nat? i with
     | some i => n2 a b (fun a b => .op (.deliver a b i)) "r=nolink"
@@ -147,7 +147,7 @@ def exec (s : Net) (op : Op) : Net × String :=
     else (s', "r=nolink")
   | .announce a _ =>
     if a < s.n then (s', line "ok" (nodeStr s' a :: outQueues s' a)) else (s', "r=bad")
-  | .withdraw a =>
+  | .withdraw a _ =>
     if a < s.n then (s', line "ok" (nodeStr s' a :: outQueues s' a)) else (s', "r=bad")
   | .deliver a b i =>
     if a < s.n ∧ b < s.n ∧ linked s a b then
@@ -546,7 +546,9 @@ def Obs.update (o : Obs) (toks : List String) (v : View) : Obs :=
     | ["withdraw", a] =>
       match nat? a with
       | some a =>
-        let news := (v.queues.map (fun q => q.msgs.getLast?.toList)).flatten
+        let news := match v.queues.head? with
+          | some q => q.msgs.drop (o.queue q.a q.b).length
+          | none => []
         { o with genuine := (news.filter (fun m => m.origin == a && m.wd)).map (fun m => (m.origin, m.seq)) ++ o.genuine }
       | none => o
     | ["announce", a] =>
@@ -655,6 +657,17 @@ def stepLine (follow : Bool) (st : Option Net) (input : String) : Option Net × 
         -- frames that are not an admissible outcome of SendFullTable are not followed
         let admissible := !follow || !(a < s.n ∧ b < s.n ∧ linked s a b) || hintOK (hopCap s.maxHops) (s.nodes a) b hint
         (some s', if admissible then out else out ++ " inadmissible-frames")
+      | .op (.withdraw a _) =>
+        let hint : Option (List (List RAd)) := if follow then
+            match (parseView impl).queues.head? with
+            | some q => some ((q.msgs.drop (queueOf s q.a q.b).length).map (·.routes))
+            | none => none
+          else none
+        let (s', out) := exec s (.withdraw a (hint.getD []))
+        let admissible := match hint with
+          | some h => !(a < s.n) || h.isEmpty || groupingOK (withdrawnRoutes (s.nodes a)) h
+          | none => true
+        (some s', if admissible then out else out ++ " inadmissible-grouping")
       | .op (.announce a _) =>
         let hint : Option (List (List RAd)) := if follow then
             match (parseView impl).queues.head? with
